@@ -372,6 +372,42 @@ def fill_regs(fam: str, rnd: random.Random, mode: str, tabs: list) -> dict[int, 
     return regs
 
 
+def directed_fills(fam: str, rnd: random.Random) -> list[dict]:
+    """Register contents at the boundaries of the derived-sensor definitions (thresholds, rounding ties, sign switches)."""
+    out = []
+    if fam == "ET":
+        for ap in (-32768, -91, -90, -89, -1, 0, 1, 89, 90, 91, 32767):
+            regs = fill_regs(fam, rnd, "random", [])
+            regs[35140] = ap & 0xFFFF
+            regs[35184] = 1
+            out.append({"set": {str(k): v for k, v in regs.items()}})
+        for hi in (0, 0x7FFF, 0x8000, 0xFFFF):
+            regs = fill_regs(fam, rnd, "small", [])
+            for a in (35105, 35109, 35113, 35117, 35182):
+                regs[a] = hi
+                regs[a + 1] = rnd.choice([0, 1, 0xFFFF, 0xFFFE])
+            out.append({"set": {str(k): v for k, v in regs.items()}})
+    elif fam == "DT":
+        ties = [(5, 10), (15, 10), (25, 30), (1, 50), (3, 50), (65534, 65534), (65535, 100), (100, 65535), (0, 7), (2405, 133)]
+        for k in range(0, len(ties), 2):
+            regs = fill_regs(fam, rnd, "random", [])
+            (a, b), (c, d) = ties[k], ties[k + 1]
+            regs.update({30103: a, 30104: b, 30105: c, 30106: d, 30107: b, 30108: a, 30118: a, 30121: b, 30119: c, 30122: d,
+                         30120: d, 30123: c})
+            out.append({"set": {str(k2): v for k2, v in regs.items()}})
+    else:
+        for bm in (0, 1, 2, 3, 4, 0xFF):
+            for gio in (0, 1, 2, 3):
+                rt = bytearray(rnd.randrange(256) for _ in range(149))
+                rt[30] = bm
+                rt[80] = gio
+                rt[38:40] = rnd.choice([0, 1, 89, 90, 91, 0x7FFF, 0x8000, 0xFFA6, 0xFFA5, 0xFFFF]).to_bytes(2, "big")
+                rt[0:2] = rnd.choice([5, 15, 2405, 0xFFFF, 0]).to_bytes(2, "big")
+                rt[2:4] = rnd.choice([10, 30, 133, 0xFFFF, 0]).to_bytes(2, "big")
+                out.append({"aa55": {"runtime": list(rt)}})
+    return out
+
+
 def program(fam: str, serial: str, rated: int, port: int, fills: list[dict], extra_calls=None, refused=None,
             es_fw: str = "1414B") -> dict:
     sim = {"regs": device_regs(fam, serial, rated), "refused": refused or []}
@@ -416,6 +452,7 @@ def gen_span_programs(tier: str, rnd: random.Random) -> list[dict]:
                         if fam == "ET" and m == "random" and rnd.random() < 0.7:
                             regs[35184] = rnd.choice([1, 2, 3, 4])
                         fills.append({"set": {str(k): v for k, v in regs.items()}})
+                fills += directed_fills(fam, rnd)
                 extra = []
                 if fam in ("ET", "ES"):
                     extra += [{"api": "read_settings_data"}, {"api": "table:settings"}]
@@ -588,7 +625,7 @@ def run_span_program(prog: dict) -> dict:
     out = []
     for ev in tr["ev"]:
         if ev["e"] in ("CALL", "SEND", "DLV"):
-            out.append({k: ev[k] for k in ("e", "api", "args", "data") if k in ev})
+            out.append({k: ev[k] for k in ("e", "api", "args", "data", "ci") if k in ev})
         elif ev["e"] == "RET":
             d = {"e": "RET", "api": ev["api"], "ok": ev.get("ok", False), "exc": ev.get("exc", "")}
             if "table" in ev:
@@ -612,7 +649,7 @@ def run_program_values(prog: dict) -> dict:
     out = []
     for ev in tr["ev"]:
         if ev["e"] in ("CALL", "SEND", "DLV"):
-            out.append({k: ev[k] for k in ("e", "api", "args", "data") if k in ev})
+            out.append({k: ev[k] for k in ("e", "api", "args", "data", "ci") if k in ev})
         elif ev["e"] == "RET":
             d = {"e": "RET", "api": ev["api"], "ok": ev.get("ok", False), "exc": ev.get("exc", ""),
                  "msg": ev.get("msg", ""), "failed": ev.get("failed", False)}
